@@ -9,7 +9,9 @@ import (
 	"sort"
 	"strconv"
 	"strings"
+	"runtime"
 	"sync"
+	"sync/atomic"
 	"testing"
 	"testing/synctest"
 	"time"
@@ -79,6 +81,9 @@ type parkedG struct {
 }
 
 type world struct {
+	freeRun bool  // never park; perturb instead
+	tape    []int // perturbation tape (the scenario's picks)
+	tapePos atomic.Int64
 	mu     sync.Mutex
 	log    []Rec
 	parked []*parkedG
@@ -102,6 +107,10 @@ func (w *world) add(r Rec) {
 
 // park blocks the calling goroutine until the scheduler releases it.
 func (w *world) park(name string) {
+	if w.freeRun {
+		w.perturb()
+		return
+	}
 	w.mu.Lock()
 	if w.free {
 		w.mu.Unlock()
@@ -112,6 +121,28 @@ func (w *world) park(name string) {
 	w.mu.Unlock()
 	<-p.resume
 }
+
+// perturb yields or spins for a moment, as told by the tape.
+func (w *world) perturb() {
+	if len(w.tape) == 0 {
+		return
+	}
+	v := w.tape[int(w.tapePos.Add(1))%len(w.tape)]
+	switch {
+	case v%4 == 0:
+	case v%4 == 1:
+		runtime.Gosched()
+	default:
+		for i := 0; i < (v>>2)*40; i++ {
+			spinSink.Add(1)
+		}
+		if v%4 == 3 {
+			runtime.Gosched()
+		}
+	}
+}
+
+var spinSink atomic.Int64
 
 var (
 	curMu sync.Mutex
@@ -296,7 +327,15 @@ type action struct {
 	run  func()
 }
 
-func runScenario(t *testing.T, sc Scenario) (ex execution) {
+func runScenario(t *testing.T, sc Scenario) (ex execution) { return runScenarioMode(t, sc, false) }
+
+// runScenarioFree executes the scenario on the real scheduler (still inside a bubble, so
+// that quiescence and deadlocks are decided exactly): nothing parks, every actor is started
+// in schedule order and the hooks only perturb (Gosched / short spins taken from the
+// schedule). Used by the -race passes at several GOMAXPROCS.
+func runScenarioFree(t *testing.T, sc Scenario) (ex execution) { return runScenarioMode(t, sc, true) }
+
+func runScenarioMode(t *testing.T, sc Scenario, freeRun bool) (ex execution) {
 	ex.msgTopics = map[string][]string{}
 	ex.msgPub = map[string]int{}
 	defer func() {
@@ -308,7 +347,7 @@ func runScenario(t *testing.T, sc Scenario) (ex execution) {
 		curMu.Unlock()
 	}()
 	synctest.Test(t, func(t *testing.T) {
-		w := &world{keys: map[any]string{}}
+		w := &world{keys: map[any]string{}, freeRun: freeRun, tape: sc.Picks}
 		curMu.Lock()
 		cur = w
 		curMu.Unlock()
@@ -465,7 +504,22 @@ func runScenario(t *testing.T, sc Scenario) (ex execution) {
 
 		const maxSteps = 700
 		step := 0
-		for ; step < maxSteps; step++ {
+		if freeRun {
+			// start every action in schedule order, without waiting for quiescence in between
+			for len(actions) > 0 {
+				k := 0
+				if step < len(sc.Picks) {
+					k = sc.Picks[step] % len(actions)
+				}
+				step++
+				a := actions[k]
+				actions = append(actions[:k], actions[k+1:]...)
+				w.trace = append(w.trace, a.name)
+				a.run()
+				w.perturb()
+			}
+		}
+		for ; step < maxSteps && !freeRun; step++ {
 			synctest.Wait()
 			w.mu.Lock()
 			sort.Slice(w.parked, func(a, b int) bool { return w.parked[a].name < w.parked[b].name })
